@@ -148,6 +148,139 @@ pub fn grammar() -> Vec<Vec<u8>> {
     docs
 }
 
+// -------------------------------------------------------------------------------------------
+// (b) tracker fault sequences in the full-session world
+// -------------------------------------------------------------------------------------------
+
+use crate::fixture::Torrent;
+use crate::fullworld::{FEv, FullWorld, TrackerOutcome};
+use crate::refwire::{self, Msg};
+use crate::world::peer_cfg;
+
+pub const FAULTS: [TrackerOutcome; 4] = [TrackerOutcome::Refused, TrackerOutcome::Http500, TrackerOutcome::Garbage, TrackerOutcome::FailureReason];
+
+/// One fault word (indices into FAULTS) followed by a good announce.
+pub fn fault_case(dir: &std::path::PathBuf, word: &[usize], verbose: bool) -> (u64, Option<(&'static str, String)>) {
+    let t = Torrent::new("t", 5, &[("f", 15)], true);
+    let cfgs = vec![peer_cfg(0, true), peer_cfg(1, true), peer_cfg(2, true)];
+    let mut script = vec![TrackerOutcome::Good(vec![0, 1])];
+    script.extend(word.iter().map(|f| FAULTS[*f].clone()));
+    script.push(TrackerOutcome::Good(vec![0, 1, 2]));
+    let mut w = FullWorld::new(&t, &cfgs, script, TrackerOutcome::Good(vec![0, 1, 2]), dir);
+    let mut steps = 1u64;
+    let desc = |w: &FullWorld| format!("announces={} session={} P.connects={} Q.connects={} R.connects={}", w.announces.borrow().len(), w.session_key(), w.peers[0].connects, w.peers[1].connects, w.peers[2].connects);
+    if verbose {
+        println!("after start: {}", desc(&w));
+    }
+    if w.peers[0].connects != 1 || w.peers[1].connects != 1 {
+        return (steps, Some(("MACHINERY", format!("first announce did not lead to connections: {}", desc(&w)))));
+    }
+    let idp = w.peers[0].cfg.id;
+    let idq = w.peers[1].cfg.id;
+    w.step(&FEv::Feed(0, [refwire::encode(&refwire::handshake(t.meta.info_hash(), &idp)), refwire::encode(&Msg::Bitfield(vec![0xe0])), refwire::encode(&Msg::Unchoke)].concat()));
+    w.step(&FEv::Feed(1, refwire::encode(&refwire::handshake(t.meta.info_hash(), &idq))));
+    steps += 2;
+    // Q leaves: no candidates are left, so the client announces again
+    w.step(&FEv::Close(1));
+    steps += 1;
+    if verbose {
+        println!("after Q closed: {}", desc(&w));
+    }
+    if w.announces.borrow().len() != 2 {
+        return (steps, Some(("MACHINERY", format!("no re-announce after the peer left: {}", desc(&w)))));
+    }
+    let mut p_chokes = false; // P unchoked us in the prefix
+    for k in 0..word.len() {
+        // the k-th announce failed; the session must keep serving P meanwhile
+        p_chokes = !p_chokes;
+        w.step(&FEv::Feed(0, refwire::encode(&if p_chokes { Msg::Choke } else { Msg::Unchoke })));
+        steps += 1;
+        let seen = w.snap().and_then(|s| s.peers.iter().find(|p| p.addr == w.peers[0].cfg.addr).map(|p| p.choked));
+        if verbose {
+            println!("failure {} ({:?}); P sent {}; manager sees choked={:?}; {}", k + 1, FAULTS[word[k]], if p_chokes { "Choke" } else { "Unchoke" }, seen, desc(&w));
+        }
+        if !w.panics.is_empty() {
+            return (steps, Some(("panic-during-tracker-faults", format!("{:?}", w.panics))));
+        }
+        if seen != Some(p_chokes) {
+            return (
+                steps,
+                Some((
+                    "session-stops-serving-connections-while-tracker-fails",
+                    format!("after {} failed announce(s) ({:?}) peer P sent {} but the manager did not process it in that step (its view: choked={:?}); the manager waits for the tracker task", k + 1, word[..=k].iter().map(|f| format!("{:?}", FAULTS[*f])).collect::<Vec<_>>(), if p_chokes { "Choke" } else { "Unchoke" }, seen),
+                )),
+            );
+        }
+        w.step(&FEv::Advance(1000));
+        steps += 1;
+    }
+    // the good announce has been answered by now (retry delay is 1 s); give it the remaining slack
+    w.step(&FEv::Advance(5000));
+    steps += 1;
+    if verbose {
+        println!("after the good announce: {}", desc(&w));
+    }
+    if !w.panics.is_empty() {
+        return (steps, Some(("panic-during-tracker-faults", format!("{:?}", w.panics))));
+    }
+    if !w.session_alive() {
+        return (steps, Some(("session-ended", desc(&w))));
+    }
+    if w.peers[1].connects != 2 || w.peers[2].connects != 1 {
+        let class = if word.len() >= 64 { "deadlock-after-64-failed-announces" } else { "listed-peers-not-contacted-after-recovery" };
+        return (steps, Some((class, format!("after {} failed announces and a good one listing P, Q, R: {}", word.len(), desc(&w)))));
+    }
+    (steps, None)
+}
+
+fn fault_words(max_n: usize) -> Vec<Vec<usize>> {
+    let mut words: Vec<Vec<usize>> = vec![vec![]];
+    let mut level: Vec<Vec<usize>> = vec![vec![]];
+    for _ in 0..3 {
+        let mut next = vec![];
+        for w in &level {
+            for f in 0..FAULTS.len() {
+                let mut v = w.clone();
+                v.push(f);
+                next.push(v);
+            }
+        }
+        words.extend(next.iter().cloned());
+        level = next;
+    }
+    for n in 4..=max_n {
+        for f in 0..FAULTS.len() {
+            words.push(vec![f; n]);
+        }
+    }
+    words
+}
+
+fn fault_part(ctx: &Ctx) -> (u64, u64, Vec<Value>) {
+    let words = fault_words(70);
+    let res = core::par_map(
+        &words,
+        |w| {
+            core::set_quiet_panics(true);
+            core::private_cwd("c19", &format!("w{}", w))
+        },
+        |dir, _, word| fault_case(dir, word, false),
+    );
+    let mut steps = 0;
+    for (word, (n, v)) in words.iter().zip(res.iter()) {
+        steps += n;
+        if let Some((class, why)) = v {
+            if *class == "MACHINERY" {
+                ctx.machinery_error(why.clone());
+            } else {
+                ctx.violation(class, why.clone(), json!({"kind": "faults", "word": word}));
+            }
+        }
+    }
+    let samples = vec![json!({"tracker_outcomes": ["Good[P,Q]", "Refused", "Http500", "Good[P,Q,R]"], "peer_events": "P: handshake+bitfield+unchoke; Q: handshake, close; after each failure P toggles choke"})];
+    (words.len() as u64, steps, samples)
+}
+
 pub fn run(ctx: &Ctx) -> Outcome {
     let max_len = ctx.tier.pick(6, 7);
     let accs = strings::for_all(max_len, || 0u64, |acc, s| {
@@ -172,20 +305,44 @@ pub fn run(ctx: &Ctx) -> Outcome {
         ctx.machinery_error(format!("vacuity: only {} structured replies accepted", accepted));
     }
 
+    let (fault_runs, fault_steps, fault_samples) = fault_part(ctx);
+
     let mut o = Outcome::new("model_checking");
+    o.set("states", json!(fault_runs));
+    o.set("transitions", json!(fault_steps));
+    o.set("traces_validated_against_impl", json!(fault_runs));
+    o.set("fault_sequences", json!(fault_runs));
     o.set("evaluations", json!(sigma + docs.len() as u64));
     o.set("distinct_nontrivial", json!(accepted));
-    o.set("rule", json!(format!("(a) every string over the C16 alphabet of length 0..={} through TrackerResp::from_bencode (totality); structured replies = peers list of 0..3 entries drawn from 11 entry shapes (2 good, 9 malformed) or missing/ill-typed x 5 interval shapes x 5 failure-reason shapes (absent, text, empty, non-UTF-8, ill-typed), all distinct; non-trivial = structured replies read as success", max_len)));
+    o.set("rule", json!(format!("(a) every string over the C16 alphabet of length 0..={} through TrackerResp::from_bencode (totality); structured replies = peers list of 0..3 entries drawn from 11 entry shapes (2 good, 9 malformed) or missing/ill-typed x 5 interval shapes x 5 failure-reason shapes (absent, text, empty, non-UTF-8, ill-typed), all distinct; non-trivial = structured replies read as success. (b) full-session world (real event_loop, tracker task, retry loop, handle_tracker_cmd, spawn_peer_handler over the seams): tracker outcome words F^n.S for every F-word of length <= 3 over the four fault kinds (refused, HTTP 500, garbage body, failure reason) and the four homogeneous words for every n in 4..=70, with a live connection P; after every failure P toggles choke/unchoke and the manager must have processed it in that quiescent step; after S the listed peers must be contacted; states = fault words, transitions = events executed", max_len)));
     o.set("sigma_strings", json!(sigma));
     o.set("structured_replies", json!(docs.len()));
     let picks = ctx.seeded_pick(docs.len(), 4);
-    o.set("samples", Value::Array(picks.iter().map(|i| json!({"reply": core::show(&docs[*i]), "read_as_success": res[*i].0})).collect()));
+    let mut samples: Vec<Value> = picks.iter().map(|i| json!({"reply": core::show(&docs[*i]), "read_as_success": res[*i].0})).collect();
+    samples.extend(fault_samples);
+    o.set("samples", Value::Array(samples));
     o.set("exhaustive", json!(true));
     o.assume("a peers entry is malformed iff it is not a dictionary with a UTF-8 string ip, a 20-byte string peer id and a non-negative integer port; ports above 65535 and replies consisting of several dictionaries are outside the alphabet");
     o
 }
 
 pub fn replay(_ctx: &Ctx, r: &Value) -> i32 {
+    if r["kind"] == "faults" {
+        let word: Vec<usize> = r["word"].as_array().unwrap().iter().map(|x| x.as_u64().unwrap() as usize).collect();
+        let dir = core::private_cwd("c19", "replay");
+        core::set_quiet_panics(true);
+        println!("tracker outcomes: Good[P,Q], {:?}, Good[P,Q,R]", word.iter().map(|f| format!("{:?}", FAULTS[*f])).collect::<Vec<_>>());
+        return match fault_case(&dir, &word, true).1 {
+            Some((class, why)) => {
+                println!("VIOLATION property=C19 replay=<this file>\n  class={} {}", class, why);
+                1
+            }
+            None => {
+                println!("holds for this fault sequence");
+                0
+            }
+        };
+    }
     let hexs = r["hex"].as_str().unwrap_or("");
     let bytes: Vec<u8> = (0..hexs.len() / 2).map(|i| u8::from_str_radix(&hexs[2 * i..2 * i + 2], 16).unwrap()).collect();
     println!("reply: {}", core::show(&bytes));
